@@ -77,6 +77,15 @@ fn impl_request(req: &str) -> String {
         "enc" => impl_enc(&unhexl(w[2])),
         "enci" => impl_enci(&unhexl(w[2])),
         "dec" => impl_dec(&unhexb(w[2])),
+        "known" => if known_c13(&unhexl(w[1])) { "1".into() } else { "0".into() },
+        // the unbounded transcription against the harness's independent u128 reference
+        "spec" if w[1] == "enc" => format!("ok:{}", hexs(&ref_encode(&unhexl(w[2])).0)),
+        "spec" => match ref_decode(&unhexb(w[2])) {
+            RefDec::Ok(v) => format!("ok:{}", hexl(v)),
+            RefDec::Malformed => "err".into(),
+            // beyond 32 bits the reference stops; the transcription goes on
+            RefDec::Overflow32 => "?overflow32".into(),
+        },
         _ => "?".into(),
     }
 }
@@ -113,13 +122,18 @@ fn signature(req: &str, out: &str) -> (bool, String) {
             let outlen = if o[0].starts_with("ok:") { unhexl(&o[0][3..]).len() } else { 0 };
             (!b.is_empty(), format!("dec:{}:len{}:delim{}:out{}:ascii{}", cls(o[0]), bucket(b.len()), delim, bucket(outlen), b.is_ascii()))
         }
+        "known" => (true, format!("known:{}", out)),
+        "spec" => (true, format!("spec:{}:{}", w[1], cls(o[0]))),
         other => (true, other.to_string()),
     }
 }
 
 fn compare(drv: &mut Driver, rep: &mut Report, stream: &str, req: &str) {
-    let model = drv.ask(req);
+    let mut model = drv.ask(req);
     let imp = impl_request(req);
+    if imp == "?overflow32" {
+        model = imp.clone(); // not comparable: the u128 reference gives up where u32 would
+    }
     let (nt, sig) = signature(req, &imp);
     rep.case(stream, req, &model, &imp, nt, &sig);
 }
@@ -243,6 +257,94 @@ fn boundary_family(thorough: bool) -> Vec<Vec<u32>> {
     }
     v
 }
+/// digits (lower case) of `delta` as a generalized variable-length integer for a given bias
+fn vli_digits(delta: u128, bias: u128) -> String {
+    let mut out = String::new();
+    let mut q = delta;
+    let mut k = 36;
+    loop {
+        let t = ref_t(k, bias);
+        if q < t {
+            break;
+        }
+        out.push(ref_digit_char(t + (q - t) % (36 - t)));
+        q = (q - t) / (36 - t);
+        k += 36;
+    }
+    out.push(ref_digit_char(q));
+    out
+}
+/// decoder inputs whose first delta lands the code point / the index on a boundary:
+/// surrogates, char::MAX, and the u32 limit of i and of code_point + i / (length + 1)
+fn targeted_decode_inputs(rng: &mut Rng, n: usize) -> Vec<Vec<u8>> {
+    let targets: [u128; 14] = [
+        0x80, 0x81, 0xd7ff, 0xd800, 0xdfff, 0xe000, 0x10ffff, 0x110000, 0x110001,
+        (1u128 << 32) - 1, 1u128 << 32, (1u128 << 32) + 0x7f, (1u128 << 32) + 0x80, (1u128 << 32) + 0x81,
+    ];
+    let mut v = Vec::new();
+    for _ in 0..n {
+        let l = rng.below(4) as u128;
+        let target = *rng.pick(&targets);
+        let mut delta = (target - 0x80) * (l + 1) + rng.below(l as usize + 1) as u128;
+        match rng.below(8) {
+            0 => delta = delta.saturating_sub(1 + rng.below(3) as u128),
+            1 => delta += 1 + rng.below(3) as u128,
+            // far beyond 32 bits: digit * weight itself overflows, the wrapped sum may not
+            2 | 3 => delta = (1u128 << 32) + (rng.next() % 45_000_000_000) as u128,
+            _ => {}
+        }
+        let mut b: Vec<u8> = (0..l).map(|_| b'a' + rng.below(26) as u8).collect();
+        if l > 0 {
+            b.push(b'-');
+        }
+        b.extend_from_slice(vli_digits(delta, 72).as_bytes());
+        if rng.chance(1, 3) {
+            // a second, small delta after it
+            b.extend_from_slice(vli_digits(rng.below(40) as u128, 0).as_bytes());
+        }
+        if rng.chance(1, 8) {
+            let i = rng.below(b.len());
+            b[i] = b[i].to_ascii_uppercase();
+        }
+        v.push(b);
+    }
+    // long basic part, one delta of j * 2^32 + r with r a legal <n, i> step: a decoder whose
+    // digit * weight product wraps reads r and returns a scalar instead of None
+    for _ in 0..n / 8 {
+        let l = 3300 + rng.below(2500) as u128;
+        let cp = 0xf0000 + rng.below(0x1ffff) as u128;
+        let r = (cp - 0x80) * (l + 1) + rng.below(l as usize + 1) as u128;
+        let j = 1 + rng.below(9) as u128;
+        let delta = if r < (1u128 << 32) { r + (j << 32) } else { r };
+        let mut b: Vec<u8> = vec![b'a'; l as usize];
+        b.push(b'-');
+        b.extend_from_slice(vli_digits(delta, 72).as_bytes());
+        v.push(b);
+    }
+    v
+}
+/// encoder inputs around the encoder's own overflow checks: (m - n) * (h + 1) and the running delta
+fn encoder_overflow_inputs(rng: &mut Rng, n: usize) -> Vec<Vec<u32>> {
+    let mut v = Vec::new();
+    for _ in 0..n {
+        let high = *rng.pick(&[0x10ffffu32, 0x10fe4f, 0xfffff, 0x80000, 0x10000]);
+        // smallest h + 1 with (high - 0x80) * (h + 1) > u32::MAX, then a few around it
+        let need = ((1u64 << 32) / (high as u64 - 0x80)) as usize;
+        let len = (need + rng.below(5)).saturating_sub(2);
+        let fill = *rng.pick(&[0x61u32, 0x80, 0x81, 0x2d]);
+        let mut s = vec![fill; len];
+        match rng.below(3) {
+            0 => s.push(high),
+            1 => s.insert(0, high),
+            _ => {
+                s.push(high - 1);
+                s.push(high)
+            }
+        }
+        v.push(s);
+    }
+    v
+}
 fn internal_label(rng: &mut Rng, maxlen: usize) -> Vec<u32> {
     let n = 1 + rng.below(maxlen);
     let mut v: Vec<u32> = (0..n).map(|_| *rng.pick(&INTERNAL_ALPHABET)).collect();
@@ -298,6 +400,13 @@ fn run_corr(args: &Args) -> Report {
 
     // exhaustive small scope
     for_all_strings(&ENC_ALPHABET, 4, |s| compare(&mut drv, &mut rep, "exh-enc", &enc_req(s)));
+    // the Known_C13 predicate (Coq) against its Rust twin, and the Coq transcription of RFC 3492
+    // against the harness's independent reference
+    for_all_strings(&ENC_ALPHABET, 3, |s| {
+        compare(&mut drv, &mut rep, "known-pred", &format!("known {}", hexl(s.iter().copied())));
+        compare(&mut drv, &mut rep, "spec-vs-ref", &format!("spec enc {}", hexl(s.iter().copied())));
+    });
+    for_all_strings(&DEC_ALPHABET, 3, |s| compare(&mut drv, &mut rep, "spec-vs-ref", &format!("spec dec {}", hexb(s))));
     let dec_len = if thorough { 5 } else { 4 };
     for_all_strings(&DEC_ALPHABET, dec_len, |s| compare(&mut drv, &mut rep, "exh-dec", &dec_req(s)));
     // every byte as a one- and two-unit input (digit table, delimiter, non-digits)
@@ -333,6 +442,8 @@ fn run_corr(args: &Args) -> Report {
     for k in 0..n_long {
         let maxlen = if k % 4 == 0 { 3000 } else { 600 };
         let s = random_seq(&mut rng, maxlen);
+        compare(&mut drv, &mut rep, "known-pred", &format!("known {}", hexl(s.iter().copied())));
+        compare(&mut drv, &mut rep, "spec-vs-ref", &format!("spec enc {}", hexl(s.iter().copied())));
         compare(&mut drv, &mut rep, "rnd-enc-long", &enc_req(&s));
         let cs: Vec<char> = s.iter().map(|&c| char::from_u32(c).unwrap()).collect();
         if let Some(p) = punycode::encode(&cs) {
@@ -351,8 +462,17 @@ fn run_corr(args: &Args) -> Report {
         }
         compare(&mut drv, &mut rep, "rnd-dec-overflow", &dec_req(&b));
     }
+    // decoder boundaries: surrogates, char::MAX, u32 limits of i and of the code point
+    for b in targeted_decode_inputs(&mut rng, if thorough { 6000 } else { 600 }) {
+        compare(&mut drv, &mut rep, "targeted-dec", &dec_req(&b));
+    }
+    // encoder overflow boundaries
+    for s in encoder_overflow_inputs(&mut rng, if thorough { 60 } else { 6 }) {
+        compare(&mut drv, &mut rep, "enc-overflow", &enc_req(&s));
+    }
     // the boundary family around F-C13-1 (encode, and decode of what the encoder gives)
     for s in boundary_family(thorough) {
+        compare(&mut drv, &mut rep, "known-pred", &format!("known {}", hexl(s.iter().copied())));
         compare(&mut drv, &mut rep, "boundary", &enc_req(&s));
         let cs: Vec<char> = s.iter().map(|&c| char::from_u32(c).unwrap()).collect();
         if let Some(p) = punycode::encode(&cs) {
@@ -692,6 +812,12 @@ fn run_search(args: &Args) -> Report {
         let b: Vec<u8> = (0..n).map(|_| *rng.pick(b"99999zzz0ab")).collect();
         try_req(&mut rep, dec_req(&b));
     }
+    for b in targeted_decode_inputs(&mut rng, 6000) {
+        try_req(&mut rep, dec_req(&b));
+    }
+    for s in encoder_overflow_inputs(&mut rng, 40) {
+        try_req(&mut rep, enc_req(&s));
+    }
     for s in boundary_family(true) {
         try_req(&mut rep, enc_req(&s));
         if let Some(cs) = to_chars(&s) {
@@ -708,7 +834,7 @@ fn run_search(args: &Args) -> Report {
     rep
 }
 
-fn run_known(_args: &Args) -> Report {
+fn run_known(args: &Args) -> Report {
     let mut rep = Report::new();
     // F-C13-1: s = U+0080 x 3856 ++ [U+10FE4F]: encode gives Some, decode of it gives None
     let mut s = vec!['\u{80}'; 3856];
@@ -723,6 +849,22 @@ fn run_known(_args: &Args) -> Report {
     });
     let reproduces = r.ends_with("decode of it = None") && known_c13(&su);
     rep.known.push(("F-C13-1".into(), reproduces, format!("U+0080 x 3856 ++ [U+10FE4F]: {}", r)));
+    // F-C13-2: 2^32 - 1 basic code units, a delimiter and one digit: `length + 1` overflows (debug:
+    // panic at punycode.rs:233; release: wraps to 0 and adapt divides by zero at punycode.rs:33).
+    // Needs 4 GiB of memory and ~20 s: thorough tier only.
+    if args.tier == "thorough" {
+        let r = guarded(|| {
+            let n = u32::MAX as usize;
+            let mut s = String::with_capacity(n + 2);
+            s.extend(std::iter::repeat('a').take(n));
+            s.push_str("-a");
+            match punycode::decode_to_string(&s) {
+                Some(d) => format!("Some ({} bytes)", d.len()),
+                None => "None".into(),
+            }
+        });
+        rep.known.push(("F-C13-2".into(), r == "PANIC", format!("'a' x (2^32 - 1) ++ \"-a\": decode_to_string: {}", r)));
+    }
     rep
 }
 
